@@ -27,8 +27,40 @@ REQUIRED_COUNTERS = {t: ['export_files', 'passed_out_results', 'played_results',
                      for t in ('quick', 'thorough')}
 
 
+# intermediate representations (texts) and probes of the reader / validator MODELS on inputs outside the property: a
+# difference there breaks the correspondence; the independent oracle has to exhibit a failing input
+CORRESPONDENCE_ONLY_OPS = ('B.wtext', 'B.line')
+
+
 def impl_exec(ops):
     return B.impl_exec(ops)
+
+
+_TAGLINE = None
+
+
+def canon(op, line):
+    """the written text is compared up to the layout freedom the reader theorem (C17.first_occurrence_wins) covers anyway:
+    an optional space after '[' / before ']' and blanks at the end of a tag line"""
+    global _TAGLINE
+    if op.split(' ', 1)[0] == 'B.wmax' and line.startswith('max='):
+        # the property bounds the line length; it does not fix it
+        mx, nl = line.split(' ')
+        return f'le255={int(int(mx[4:]) <= 255)} {nl}'
+    if op.split(' ', 1)[0] != 'B.wtext' or line in ('ERR', 'bad-op', '-') or line.startswith('EXC'):
+        return line
+    import re
+    if _TAGLINE is None:
+        _TAGLINE = re.compile(r'\[ ?([A-Z][a-zA-Z]+) "([^"\n]*)" ?\][ \t]*')
+    try:
+        text = J.unhx(line)
+    except ValueError:
+        return line
+    out = []
+    for ln in text.split('\n'):
+        m = _TAGLINE.fullmatch(ln)
+        out.append(f'[{m.group(1)} "{m.group(2)}"]' if m else ln)
+    return J.hx('\n'.join(out))
 
 
 def cases(ctx):
